@@ -249,7 +249,10 @@ def run_case(case):
             # the structure lcm itself produces: utility + beta * interpolated continuation value
             body = " + ".join(f"{coef[i]} * xp.log({c})" for i, c in enumerate(cs)) + f" + 0.{93 + form} * xp.interp(1.04 * (s - 0.3 * (" + " + ".join(cs) + ")) + 0.7, VGRID, VVALS)"
         feas = " + ".join(cs) + f" <= s * {round(1.0 + k * 0.8, 2)} + 0.5"
-        src = f"def u_and_f(s, {', '.join(cs)}):\n    return {body}, {feas}\n"
+        # the function's own signature order is NOT the order in which the variables are listed for
+        # the product (the listed order defines the axes of the flat position)
+        sig_cs = [str(x) for x in rng.permutation(cs)] if case["index"] % 2 else list(cs)
+        src = f"def u_and_f({', '.join(sig_cs[:1] + ['s'] + sig_cs[1:]) if case['index'] % 4 == 1 else 's, ' + ', '.join(sig_cs)}):\n    return {body}, {feas}\n"
         vgrid = np.linspace(-2.0, 9.0, 12)
         vvals = np.cumsum(rng.uniform(0.1, 1.0, 12)) ** 0.7
         nsj, nsn = {"xp": jnp, "VGRID": jnp.asarray(vgrid), "VVALS": jnp.asarray(vvals)}, {"xp": np, "VGRID": vgrid, "VVALS": np.asarray(jnp.asarray(vvals), dtype=float)}
